@@ -101,17 +101,17 @@ PROPS = {
         "not_decided": [],
     },
     "C17": {
-        "level": "exploration",
+        "level": "proof",
         "exhaustive": True,
-        "level_text": "error paths depend only on shapes and on q, never on element values, so the decision table {empty, non-empty} x {same shape, different shape of equal rank incl. equal element count} x q classes x every fallible public routine is enumerated exhaustively on the real crate for ranks 1..3 with every axis length in 0..2 (catch_unwind per cell; error payloads - both shapes, the first offending q - compared); EquiSpaced::new's rejection rule is additionally proved by Verus",
-        "level_note": "bounded: axis lengths <= 2, ranks <= 3; value-independence of the guards is by inspection of the guard expressions (len/shape/q comparisons), not proved; strategies' EmptyInput/Strategy mapping is exercised by enum:strategies (C12)",
-        "technique": "exhaustive bounded decision table on the real crate + Verus contract on EquiSpaced::new",
+        "level_text": "Verus discharges, on the bodies extracted from /repo (guard macros expanded from src/lib.rs on every run, R12), the error clauses of every fallible routine the property names, for arrays of every rank, shape and layout and generically in the element type: EmptyInput exactly for an empty receiver (argmin/argmax/min/max, argmin_skipnan/argmax_skipnan when nothing is left, mean, harmonic/geometric mean, central_moment(s), kurtosis, skewness, entropy, cov/pearson_correlation on no observations, every DeviationExt routine incl. the derived f64 measures, weighted_mean/var/std and their per-axis forms, kl_divergence, cross_entropy); ShapeMismatch carrying first_shape == shape of the receiver and second_shape == shape of the argument exactly when a non-empty receiver meets another shape (per-axis weights: another length than the axis), also through `?` in the wrappers; the sum-type routines weighted_sum / weighted_sum_axis only compare shapes and are Ok for empty inputs; InvalidQuantile carrying the first offending q, before EmptyInput for a zero-length axis, for quantiles_axis_mut (inner function), quantile_axis_mut, quantile_mut, quantiles_mut and quantile_axis_skipnan_mut; and Ok in every other case (clauses `r is Ok` tagged C17). EquiSpaced::new rejects exactly non-positive widths and max <= min with the Strategy error. A panic on these paths would be a failed precondition of a shim function (verif_assert, indexing, expect) and fails verification. The exhaustive decision table on the real crate remains as witness search and covers what the shim abstracts (concrete element types, the Display/From impls of the error enums)",
+        "level_note": "trusted: A-ND n-D (len, shape, is_empty, equal shapes have equally many elements), std reflexive From (R12b), <[usize]>::to_vec copies the shape, EmptyInput -> MinMaxError::EmptyInput modelled by a constant, A-REAL for the units in which the value clauses live (the error clauses do not depend on it). NOT under contract: the histogram strategies from_array / GridBuilder::from_array (BinsBuildError::{EmptyInput, Strategy}: float formulas for the number of bins; exercised by enum:strategies under C12) - bounded only. bounded (witness search, not counted): enum:errors - ranks 1..3, axis lengths 0..2, every fallible public routine, error payloads compared",
+        "technique": "Verus postconditions on the extracted bodies of every fallible routine named by the property (error value and payload, precedence, Ok otherwise); exhaustive bounded decision table on the real crate as witness search",
         "design_ref": "DESIGN.md 4 (C17)",
-        "verus": [("equispaced", "N"), ("minmax", "N"), ("deviation", "N"), ("means", "N"), ("moments", "N"), ("entropy", "N"), ("cov", "N"), ("qglue", "N")],
+        "verus": [("equispaced", "N"), ("minmax", "N"), ("deviation", "N"), ("means", "N"), ("moments", "N"), ("entropy", "N"), ("cov", "N"), ("qglue", "N"), ("skipnan", "N")],
         "contract_sync": [("shim/qglue.rs", "pub fn get_many_from_sorted_mut_unchecked<A>(", "units/sort.tpl.rs", "id=get_many_from_sorted_mut_unchecked>>pub fn get_many_from_sorted_mut_unchecked<A>(")],
         "enum": [{"name": "errors"}],
-        "assumptions": [A_ENUM, A_VERUS, A_EXTRACT, BOUNDED_NOTE],
-        "not_decided": ["shapes with an axis longer than 2 or rank above 3"],
+        "assumptions": [A_ND, A_REAL, A_ENUM, A_VERUS, A_EXTRACT, BOUNDED_NOTE, "std: x.into() with the target type equal to the source type returns x (reflexive From; shim method verif_into_same)"],
+        "not_decided": ["BinsBuildError of the histogram strategies (from_array of Sqrt, Rice, Sturges, FreedmanDiaconis, Auto; GridBuilder::from_array): bounded only (enum:strategies, C12)"],
         "rule": "one case per (routine, shape, other shape / weights length / q list); non-trivial = the cell is an error cell or a shape-mismatch candidate rather than the plain Ok cell",
     },
     "C15": {
@@ -263,9 +263,9 @@ PROPS.update({
     },
     "C09": {
         "level": "proof",
-        "level_text": "Verus discharges on the extracted bodies of count_eq, count_neq, sq_l2_dist, l1_dist and linf_dist (after the mechanical rewrites R11: `Zip::from(a).and(b).for_each(closure)` becomes a loop over the index-aligned pairs with the closure body as loop body, and R12: the crate's guard macros are expanded from src/lib.rs), for arrays of every dimensionality and layout: an empty receiver gives EmptyInput, different shapes give an error, otherwise count_eq is exactly the number of index positions holding equal elements (independent of the order in which Zip visits them: vstd's fold-permutation lemma), count_eq + count_neq is the number of elements, and each distance is the fold of its documented term ((a-b)^2, |a-b|, running maximum of |a-b| from zero) with the element type's own arithmetic over all index-aligned pairs, each exactly once - and equals the fold in logical order whenever that fold is order-insensitive (commutative_foldl: true for integer addition and for max of a total order). The derived float measures (l2_dist, mean_abs_err, mean_sq_err, root_mean_sq_err, psnr) and the integer exactness are additionally compared on the real crate with exact i64 arithmetic / bit for bit with their documented formulas, for every pairing of 5 layouts and 4 ownership kinds",
-        "level_note": "trusted: A-ND n-D incl. Zip (each index exactly once, elements paired at the same index, unspecified order), slice ==, <[T]>::to_vec, the element type's operators follow their vstd specs and are defined for all operands (for machine integers this is a no-overflow hypothesis); the ShapeMismatch payload passes through `.into()` (not modelled by Verus: checked by enum:errors). Not proved: symmetry/zero-on-identical as algebraic facts and the derived float measures (bounded by enum:deviation); float inputs 'within roundoff': not decided. bounded: enum:deviation - i64/i32 over {-7,0,3,1000}, all pairs of contents for <= 2 elements, sampled above, shapes up to 4-D",
-        "technique": "Verus contracts on the extracted deviation kernels (loop over zipped pairs, fold-permutation lemma); bounded enumeration for the derived float measures",
+        "level_text": "Verus discharges on the extracted bodies of count_eq, count_neq, sq_l2_dist, l1_dist and linf_dist (after the mechanical rewrites R11: `Zip::from(a).and(b).for_each(closure)` becomes a loop over the index-aligned pairs with the closure body as loop body, and R12: the crate's guard macros are expanded from src/lib.rs), for arrays of every dimensionality and layout: an empty receiver gives EmptyInput, different shapes give ShapeMismatch carrying both shapes (the `.into()` of the guard macro is a conversion to the same type, spelled as a shim method by R12b), otherwise count_eq is exactly the number of index positions holding equal elements (independent of the order in which Zip visits them: vstd's fold-permutation lemma), count_eq + count_neq is the number of elements, and each distance is the fold of its documented term ((a-b)^2, |a-b|, running maximum of |a-b| from zero) with the element type's own arithmetic over all index-aligned pairs, each exactly once - and equals the fold in logical order whenever that fold is order-insensitive (commutative_foldl: true for integer addition and for max of a total order). The derived f64 measures l2_dist, mean_abs_err, mean_sq_err, root_mean_sq_err and peak_signal_to_noise_ratio are verified as callers of those contracts: the same errors, and otherwise exactly their documented formula over the f64 operations taken as uninterpreted functions (sqrt(to_f64(sq)), to_f64(l1)/n, to_f64(sq)/n, sqrt of that, 10*log10(maxv*maxv/mse), with the evaluation order of the source). They and the integer exactness are additionally compared on the real crate with exact i64 arithmetic / bit for bit with their documented formulas, for every pairing of 5 layouts and 4 ownership kinds",
+        "level_note": "trusted: A-ND n-D incl. Zip (each index exactly once, elements paired at the same index, unspecified order), slice ==, <[T]>::to_vec, the element type's operators follow their vstd specs and are defined for all operands (for machine integers this is a no-overflow hypothesis); std's reflexive From (x.into() of the same type returns x), ToPrimitive::to_f64 is Some for every value of the element type (precondition to_f64_total), f64 /, *, sqrt, log10 and `usize as f64` are uninterpreted deterministic functions. Not proved: symmetry/zero-on-identical as algebraic facts; float inputs 'within roundoff': not decided. bounded: enum:deviation - i64/i32 over {-7,0,3,1000}, all pairs of contents for <= 2 elements, sampled above, shapes up to 4-D",
+        "technique": "Verus contracts on the extracted deviation kernels (loop over zipped pairs, fold-permutation lemma) and on the derived f64 measures as their callers; bounded enumeration as witness search",
         "design_ref": "DESIGN.md 4 (C09), 8a",
         "verus": [("deviation", "N")],
         "enum": [{"name": "deviation"}, {"name": "floatsums"}],
